@@ -4,8 +4,11 @@
 
    Domain (DESIGN.md section 7, "not findings"): method names valid UTF-8; ids JSON string / number
    literals, valid UTF-8; params / results = what json.Marshal returns for a marshalable value (a
-   compact JSON text, valid UTF-8); error data valid JSON whose compaction is valid UTF-8; error
-   messages are ARBITRARY byte strings.
+   compact JSON text, valid UTF-8); error data valid JSON whose compaction is valid UTF-8, or not
+   JSON at all (err_sendable: since fix F16/F17 jmessage.toJSON writes such an error WITHOUT its
+   data instead of failing; c13_encoder_total, c13_undeliverable_error_data_dropped,
+   c13_parse_back_undeliverable_error_data; the behaviour before the fix is enc_msg_gen false /
+   enc_msgs_gen false: c13_refuted_without_F16); error messages are ARBITRARY byte strings.
 
    Nothing is _partial any more.  c13_parse_back, c13_independent and c13_parse_back_batch are
    unconditional: the JSON-level round-trip specifications they used to assume (spec_members,
@@ -43,6 +46,42 @@ Theorem c13_single_line_error : forall e : werr, err_ok e ->
   exists b, marshal_error e = Some b /\ (forall c, In c b -> 32 <= c) /\ valid_utf8 b = true.
 Proof. exact single_line_error. Qed.
 Print Assumptions c13_single_line_error.
+
+Theorem c13_encoder_total :
+  (forall m : jmsg, exists b, enc_msg m = Some b) /\
+  (forall (batch : bool) (ms : list jmsg), exists b, enc_msgs batch ms = Some b).
+Proof. exact (conj enc_msg_total enc_msgs_total). Qed.
+Print Assumptions c13_encoder_total.
+
+Theorem c13_undeliverable_error_data_dropped : forall (m : jmsg) (e : werr),
+  j_error m = Some e -> marshal_error e = None ->
+  enc_msg m = enc_msg (set_error (Some (drop_data e)) m).
+Proof. exact enc_msg_drops_undeliverable_data. Qed.
+Print Assumptions c13_undeliverable_error_data_dropped.
+
+Theorem c13_undeliverable_error_data_domain : forall e : werr,
+  marshal_error e = None <-> (we_data e <> [] /\ compact (we_data e) = None).
+Proof. exact marshal_error_none. Qed.
+Print Assumptions c13_undeliverable_error_data_domain.
+
+Theorem c13_parse_back_undeliverable_error_data : forall (m : jmsg) (e : werr) (b : bytes),
+  j_error m = Some e -> marshal_error e = None -> msg_rt (set_error (Some (drop_data e)) m) ->
+  enc_msg m = Some b ->
+  parse_member b = canon m /\ parse_msgs b = InMsgs false [canon m] /\
+  parse_requests b = Parsed [to_parsed (canon m)].
+Proof. exact parse_back_undeliverable_data. Qed.
+Print Assumptions c13_parse_back_undeliverable_error_data.
+
+Theorem c13_refuted_without_F16 :
+  marshal_error bad_data_err = None /\
+  enc_msg_gen false bad_data_rsp = None /\
+  enc_msgs_gen false true [good_rsp; bad_data_rsp] = None /\
+  (exists b, enc_msgs_gen false true [good_rsp] = Some b) /\
+  (exists b, enc_msgs true [good_rsp; bad_data_rsp] = Some b /\
+             parse_msgs b = InMsgs true [canon good_rsp; canon bad_data_rsp]) /\
+  j_error (canon bad_data_rsp) = Some {| we_code := 7%Z; we_msg := [110; 111]; we_data := [] |}.
+Proof. exact encoder_refuted_without_F16. Qed.
+Print Assumptions c13_refuted_without_F16.
 
 Theorem c13_compact_is_one_line : forall p q : bytes, compact p = Some q -> no_ctl q = true.
 Proof. exact compact_no_ctl. Qed.
